@@ -181,22 +181,19 @@ STDOUT_COMBOS = [(["json"], ["plain"]), (["json"], ["progress2"]), (["json"], ["
                  (["json", "plain"], ["progress3"]), (["plain", "progress2"], ["json"]), (["json.pretty", "progress3"], ["plain"])]
 
 
-def stdout_jobs(chk, base_jobs):
-    # behave itself prints to stdout, too ("ABORTED: By user.", CLEANUP-ERROR / HOOK-ERROR tracebacks): the text of a report on
-    # stdout is only the formatter's in runs without an interrupt, a raising cleanup or a hook fault
-    pool = [j for j in base_jobs if not j["fault"][0] and
-            not any(st["o"] == "kbd" or st.get("o2") == "kbd" or st["cl_raises"] for e in j["flat"]["elems"] for st in e["steps"])]
+def stdout_jobs(chk, quiet_jobs):
+    """quiet_jobs: cases of the reports pass whose run (all formatters on files) wrote NOTHING to the real stdout --
+    behave itself prints there, too ("ABORTED: By user.", HOOK-ERROR / CLEANUP-ERROR tracebacks, uncaptured step
+    output); the run is deterministic, so with one formatter moved to stdout the recorded stdout text is that
+    formatter's report and nothing else"""
     per = 18 if chk.quick() else 300
     out = []
+    if not quiet_jobs:
+        return out
     for ci, (files, std) in enumerate(STDOUT_COMBOS):
         for k in range(per):
-            j = pool[(ci * 131 + k * 17) % len(pool)]
-            # ... and with everything the steps and step hooks print captured (no --wip, no replaced streams)
-            c = dict(j["cfg"], cap_out=True, cap_err=True, cap_log=True)
-            for key in ("wip", "tamper", "chatty"):
-                if key in c:
-                    c[key] = False
-            out.append(dict(j, key=["stdout", ci, k] + j["key"][1:], cfg=c, formats=files, stdout_formats=std, **{"pass": "stdout"}))
+            j = quiet_jobs[(ci * 131 + k * 17) % len(quiet_jobs)]
+            out.append(dict(j, key=["stdout", ci, k] + j["key"][1:], formats=files, stdout_formats=std, **{"pass": "stdout"}))
     return out
 
 
@@ -545,8 +542,12 @@ def run(chk):
     # real runs first: multiprocessing forks, so no other thread of this process may be alive meanwhile
     base, planned = plan_jobs(chk, 1100 if quick else 24000, rnd)
     fjobs = formats_jobs(chk, base, rnd)
-    fjobs = fjobs + stdout_jobs(chk, base)
     real_out = stage.drive_all([run_job(j) for j in base + fjobs], procs=PROCS)
+    quiet = [j for j, o in zip(base, real_out) if ((o.get("reports") or {}).get("c15") or {}).get("quiet_stdout") and
+             o["end"]["ran"] and not o["end"]["escaped"]]
+    sjobs = stdout_jobs(chk, quiet)
+    real_out = real_out + stage.drive_all([run_job(j) for j in sjobs], procs=PROCS)
+    fjobs = fjobs + sjobs
     rows, jobs = [], {}
 
     def add_rows(some_jobs, outs):
@@ -640,8 +641,8 @@ def run(chk):
     chk.assumptions = ["a run that died inside a formatter callback is attributed to the first formatter of the run whose automaton crashes "
                        "on the recorded stream (signature only)",
                        "statuses that formatters read from model objects during a callback are compared with the statuses after the run",
-                       "stdout rows: only runs in which behave itself prints nothing to stdout (no KeyboardInterrupt step, no raising "
-                       "cleanup, no hook fault; stdout / stderr / logging capture on), so that the recorded stdout text is the report of the one formatter without -o",
+                       "stdout rows: only cases whose run with all formatters on files wrote nothing at all to the real stdout (behave's own "
+                       "messages, uncaptured step output), so that the recorded stdout text is the report of the one formatter without -o",
                        "--no-junit --no-summary in all runs, so that a run that dies did so inside a formatter callback",
                        "programs of the shared plan whose after_scenario hook skips the enclosing feature / rule run without that hook: it "
                        "rewrites statuses of scenarios that were reported before",
